@@ -218,6 +218,9 @@ pub fn run(tier: &str) -> Result<Report, String> {
         let mut g = Gen::new(Alphabet::all_ops(ctx.nprops(), 3));
         let mut fs = g.closed_up_to(m);
         fs.extend(templates(&ctx.user, false, pool));
+        if b.n >= 2 && tier != "quick" {
+            fs.extend(crate::formulas::pair_family(&crate::formulas::plain_pool(&ctx.user), 8, false));
+        }
         let bad: Vec<Violation> = fs
             .par_iter()
             .filter_map(|f| {
